@@ -4,45 +4,6 @@ Import ListNotations.
 From FV.C08 Require Import Table Model Proofs.
 From FV.C09 Require Import Model.
 
-(* ------------------------------------------------------------ np.unique *)
-Lemma insertZ_In x y l : In y (insertZ x l) <-> y = x \/ In y l.
-Proof.
-  induction l as [|z r IH]; simpl; [intuition|].
-  destruct (Z.ltb_spec x z); simpl; [intuition|].
-  destruct (Z.eqb_spec x z); simpl.
-  - subst. intuition.
-  - rewrite IH. intuition.
-Qed.
-
-Lemma uniqueZ_In x l : In x (uniqueZ l) <-> In x l.
-Proof.
-  unfold uniqueZ. induction l as [|y r IH]; simpl; [tauto|].
-  rewrite insertZ_In, IH. intuition.
-Qed.
-
-Lemma insertZ_sorted x l : StronglySorted Z.lt l -> StronglySorted Z.lt (insertZ x l).
-Proof.
-  induction 1 as [|y r S IH F]; simpl; [repeat constructor|].
-  destruct (Z.ltb_spec x y).
-  - constructor; [constructor; auto|]. constructor; auto.
-    eapply Forall_impl; [|exact F]. intros; lia.
-  - destruct (Z.eqb_spec x y); [constructor; auto|].
-    constructor; auto. rewrite Forall_forall in *. intros z Hz.
-    apply insertZ_In in Hz. destruct Hz as [->|Hz]; [lia|auto].
-Qed.
-
-Lemma uniqueZ_sorted l : StronglySorted Z.lt (uniqueZ l).
-Proof. unfold uniqueZ. induction l; simpl; [constructor|apply insertZ_sorted; auto]. Qed.
-
-Lemma sorted_lt_NoDup l : StronglySorted Z.lt l -> NoDup l.
-Proof.
-  induction 1 as [|x r S IH F]; constructor; auto.
-  intros Hin. rewrite Forall_forall in F. specialize (F x Hin). lia.
-Qed.
-
-Lemma uniqueZ_NoDup l : NoDup (uniqueZ l).
-Proof. apply sorted_lt_NoDup, uniqueZ_sorted. Qed.
-
 (* two strictly ascending lists with the same members are equal *)
 Lemma sorted_ext a b : StronglySorted Z.lt a -> StronglySorted Z.lt b ->
   (forall x, In x a <-> In x b) -> a = b.
